@@ -139,7 +139,12 @@ func checkChooser(c *Ctx, ch *ssa.Function) {
 	if entry != nil {
 		pc := pathCond(tb, entry, site.At.Block())
 		why = "no share test found; the Choice is appended under " + short(pc.String())
-		if pc.Op == "true" {
+		// "every codon" only if the loop runs over the table's own codon lists; a list that a helper has
+		// already thresholded is another matter
+		overOwnCodons := it != nil && !it.contains(func(x *Term) bool { return x.Op == "call" || x.Op == "phi" || x.Op == "alloc" || x.Op == "makeslice" || x.Op == "collect" })
+		if pc.Op == "true" && !overOwnCodons {
+			why = "the Choice is appended for every element of a list prepared elsewhere (" + short(it.String()) + "); whether that list is thresholded is not followed"
+		} else if pc.Op == "true" {
 			st, why = broken, "every codon is offered to the chooser, whatever its share (zero-weight and rare codons included)"
 		}
 		for _, at := range pc.atoms() {
